@@ -112,6 +112,12 @@ func c08R1R4(p *Prog, r *Report) {
 	for _, ph := range phis {
 		name := ph.Comment
 		seed, _ := seedOf(ph)
+		// a carried edge is known by the state field it starts from, whatever the local is called
+		if seed != nil && want[name] == "" {
+			if f := emtField(seed); want[f] != "" && !seen[f] {
+				name = f
+			}
+		}
 		switch {
 		case want[name] != "":
 			seen[name] = true
@@ -160,7 +166,7 @@ func c08R1R4(p *Prog, r *Report) {
 	}
 	for _, n := range []string{"t", "u", "v", "iFirst"} {
 		if !seen[n] {
-			r.Bad("C08.R1", "carried state `"+n+"` present in the edge loop", p.Pos(fn.Pos()), "the edge loop does not carry `"+n+"`")
+			r.Unk("C08.R1", "carried state `"+n+"` present in the edge loop", p.Pos(fn.Pos()), "no loop-carried value of the edge loop starts from the state field / resume index `"+n+"` in a form the rule recognises (scalars carried in locals): whether the state is carried across blocks is not decided")
 		}
 	}
 	// stored back on every path to the return
@@ -282,7 +288,7 @@ func c08R1R4(p *Prog, r *Report) {
 		}
 	})
 	if vIdx == nil {
-		r.Bad("C08.R4", "the trigger index entering a record is at least the look-back", p.Pos(fn.Pos()), "could not find where the found edge becomes the next-edge frame (v = index + first frame)")
+		r.Unk("C08.R4", "the trigger index entering a record is at least the look-back", p.Pos(fn.Pos()), "could not find where the found edge becomes the next-edge frame (v = index + first frame): the form is not recognised, the lower bound of the trigger index is not decided")
 	} else {
 		okT := g.Prove(pc.Of(stripConv(vIdx)).Sub(polySym(recv+".npre")), vAt)
 		r.Check(okT, "C08.R4", "the trigger index entering a record is at least the look-back", p.InstrPos(vAt), "proven (clamp / guard)", "nothing bounds the refined trigger index from below: with zero-threshold refinement an edge on the first searchable sample is moved to index npre-1 and the record then starts at index -1 (slice bounds out of range in the block-processing goroutine)")
